@@ -23,6 +23,12 @@ def devsets(pid):
     return devs, allk | devs
 
 
+def _model_check_with_override(ctx, module, cfg, overrides):
+    cfg = dict(cfg)
+    cfg["overrides"] = overrides
+    return model_check(ctx, module, cfg, timeout=7200)
+
+
 def other_items(rec):
     o = rec.get("other", [])
     return list(o.values()) if isinstance(o, dict) else list(o)
@@ -283,7 +289,82 @@ def c06(ctx):
                                "exhaustive up to 3 rules in total over at most 3 files; larger graphs are not explored yet"])
 
 
+# ---------------------------------------------------------------------------
+# C01 / C07 / C11  the verifier
+
+VERIFY_DEVS = {"PropagationEntryNotVerified", "ExhaustiveVerifierShortCircuit", "FixEntryNotVerified"}
+
+
+def _verify(ctx, pid, fams, limit, invariants):
+    known, asbuilt = devsets(pid)
+    asbuilt = (asbuilt & VERIFY_DEVS) | known
+    tally = Tally(ctx)
+    total = 0
+    samples = []
+    for fam, maxlen, mod in fams:
+        consts = {"MaxLen": maxlen, "Family": '"%s"' % fam, "EmitMod": mod, "EmitRes": ctx.seed % mod, "AsBuilt": asbuilt,
+                  "Pol": "MCPol"}
+        cfg = dict(constants={k: v for k, v in consts.items() if k != "Pol"}, invariants=invariants, constraints=["Emit"])
+        mc = _model_check_with_override(ctx, "MC_Verify", cfg, {"Pol": "MCPol"})
+        pol = [r for r in mc.records if r.get("t") == "POL"][:1]
+        scns = [r for r in mc.records if r.get("t") == "SCN"]
+        if not pol or not scns:
+            raise Infra("TLC emitted no scenarios for family %s" % fam)
+        d = ctx.sub("verify-" + fam)
+        write_ndjson(os.path.join(d, "pol.ndjson"), pol)
+        write_ndjson(os.path.join(d, "scn.ndjson"), scns)
+        trace = os.path.join(d, "trace.ndjson")
+        run_vh(ctx, ["verify", "-scn", os.path.join(d, "scn.ndjson"), "-aux", os.path.join(d, "pol.ndjson"), "-out", trace,
+                     "-seed", ctx.seed, "-n", limit])
+        cls = validate_trace(ctx, "Trace_Verify", trace, {"Known": known, "AsBuilt": asbuilt, "Prop": '"%s"' % pid},
+                             extra_cfg={"overrides": {"Pol": "TracePol"}}, files=[("pol.ndjson", os.path.join(d, "pol.ndjson"))])
+        lines = None
+        for rec in cls:
+            if rec["err"]:
+                raise Infra("harness could not build scenario %s/%d: %s" % (fam, rec["id"], rec["err"]))
+            rr = rec["r"]
+            for ref in sorted(rr):
+                x = rr[ref]
+                item = None
+                if x["cls"] != "conform":
+                    if lines is None:
+                        lines = {y["id"]: y for y in read_ndjson(trace)}
+                    ln = lines[rec["id"]]
+                    item = {"family": fam, "ref": ref, "why": x.get("why"), "log": ln["scn"]["log"], "obs": ln["obs"]}
+                tally.add(x["cls"], item, dev=x.get("dev"), nontrivial_key=(fam, rec["id"], ref) if rec["nt"] else None)
+        total += len(cls)
+        samples.append({"family": fam, "log": scns[len(scns) // 2]["log"]})
+    return finish(ctx, tally, samples=samples, traces=total,
+                  assumptions=["logs are concretised on the harness' in-memory Git-format store: real tufv02 policy metadata signed "
+                               "by a root key, SSH-signed RSL entries and commits, real reference-authorization attestations",
+                               "principals hold one key each (shared keys are C05's subject); policy entries are chain-valid "
+                               "(broken chains are C02's subject)",
+                               "every log up to the family bound is model-checked; a seeded sample of them is replayed"])
+
+
+def c01(ctx):
+    q = ctx.quick()
+    fams = [("core", 4 if q else 5, 97 if q else 397), ("recovery", 6 if q else 7, 61 if q else 211), ("global", 5 if q else 6, 97 if q else 397),
+            ("nopolicy", 3, 11)]
+    return _verify(ctx, "C01", fams, 6000 if q else 60000, ["C01Refines"])
+
+
+def c07(ctx):
+    q = ctx.quick()
+    fams = [("recovery", 6 if q else 7, 23 if q else 61), ("core", 4 if q else 5, 211 if q else 797)]
+    return _verify(ctx, "C07", fams, 8000 if q else 80000, ["C07Refines"])
+
+
+def c11(ctx):
+    q = ctx.quick()
+    fams = [("global", 5 if q else 6, 29 if q else 97)]
+    return _verify(ctx, "C11", fams, 8000 if q else 80000, ["C01Refines", "C11Mono"])
+
+
 CHECKS = {
+    "C01": c01,
+    "C07": c07,
+    "C11": c11,
     "C06": c06,
     "C05": c05,
     "C16": c16,
